@@ -129,60 +129,6 @@ theorem model_consts (c : Model.Cfg) (hes : 1 ≤ c.es) :
   unfold Model.Cfg.MAX_EXP Model.Cfg.MIN_EXP_NORMAL Model.Cfg.MIN_EXP_SUBNORMAL
   refine ⟨by omega, by omega, by omega⟩
 
-/-- normal-target branch of `operator=(float/double)`: the assembled encoding -/
-theorem assignCore_normal (c : Model.Cfg) (srcF srcBias W : Nat) (sub : Bool) (s : Bool) (raw_exp raw0 : Nat)
-    (hes : 1 ≤ c.es) (hn : c.es + 3 ≤ c.nbits) (hw : 1 ≤ c.w) (hW : c.nbits ≤ W)
-    (hst : c.nrBlocks = 1 ∨ c.nrBlocks ≤ (W + 1) / c.w)
-    (hsr : c.fbits + 1 < srcF) (hraw : raw0 < 2 ^ srcF)
-    (hlo : c.MIN_EXP_NORMAL ≤ (raw_exp : Int) - (srcBias : Int))
-    (hhi : (raw_exp : Int) - (srcBias : Int) < c.MAX_EXP) :
-    Model.assignCore c srcF srcBias W sub s raw_exp raw0 =
-      (if s then 2 ^ (c.nbits - 1) else 0) +
-      ((((raw_exp : Int) - (srcBias : Int) + c.EXP_BIAS).toNat) * 2 ^ (c.fbits + 1) + 2 * (raw0 / 2 ^ (srcF - c.fbits))) +
-      (if raw0 % 2 ^ (srcF - c.fbits) ≠ 0 then 1 else 0) := by
-  obtain ⟨k1, k2, k3⟩ := model_consts c hes
-  have hF : c.fbits = c.nbits - 2 - c.es := rfl
-  unfold Model.assignCore
-  generalize hexp : (raw_exp : Int) - (srcBias : Int) = exponent at *
-  have c1 : ¬ exponent > c.MAX_EXP := by omega
-  have c2 : ¬ exponent < c.MIN_EXP_SUBNORMAL := by omega
-  have c3 : (decide (exponent ≥ c.MIN_EXP_SUBNORMAL) && decide (exponent < c.MIN_EXP_NORMAL)) = false := by
-    simp; omega
-  have c4 : ((srcF : Int) - (c.fbits : Int) - 1 > 0) := by omega
-  simp only [c1, c2, if_false, c3, Bool.false_eq_true, c4, if_true]
-  -- the pieces
-  have hbe1 : 1 ≤ exponent + c.EXP_BIAS := by omega
-  have hbe2 : exponent + c.EXP_BIAS < ((2 ^ c.es : Nat) : Int) := by omega
-  have hbe : (exponent + c.EXP_BIAS).toNat < 2 ^ c.es := by omega
-  have hsh : ((srcF : Int) - (c.fbits : Int) - 1).toNat = srcF - c.fbits - 1 := by omega
-  have hmask : Model.shr (2 ^ srcF - 1) c.fbits &&& raw0 = raw0 % 2 ^ (srcF - c.fbits) := by
-    unfold Model.shr
-    rw [mask_shr (by omega), Nat.and_comm, Nat.and_two_pow_sub_one_eq_mod]
-  have hrawS : Model.shr raw0 (srcF - c.fbits - 1) < 2 ^ (c.fbits + 1) := by
-    unfold Model.shr
-    rw [Nat.shiftRight_eq_div_pow]
-    apply Nat.div_lt_of_lt_mul
-    rw [← Nat.pow_add, show srcF - c.fbits - 1 + (c.fbits + 1) = srcF by omega]; exact hraw
-  have hhalf : Model.shr raw0 (srcF - c.fbits - 1) / 2 = raw0 / 2 ^ (srcF - c.fbits) := by
-    unfold Model.shr
-    rw [Nat.shiftRight_eq_div_pow, Nat.div_div_eq_div_mul, ← Nat.pow_succ,
-      show (srcF - c.fbits - 1).succ = srcF - c.fbits by omega]
-  rw [hsh, hmask]
-  have hasm := assemble (W := W) (es := c.es) (F := c.fbits) (n := c.nbits) s
-    (raw0 % 2 ^ (srcF - c.fbits) != 0) (exponent + c.EXP_BIAS).toNat (Model.shr raw0 (srcF - c.fbits - 1))
-    (by omega) hW hbe hrawS
-  dsimp only at hasm ⊢
-  rw [hasm, hhalf]
-  have hlt : (if s then 2 ^ (c.nbits - 1) else 0) +
-      ((exponent + c.EXP_BIAS).toNat * 2 ^ (c.fbits + 1) + 2 * (raw0 / 2 ^ (srcF - c.fbits))) +
-      (if (raw0 % 2 ^ (srcF - c.fbits) != 0) = true then 1 else 0) < 2 ^ c.nbits := by
-    have hft : raw0 / 2 ^ (srcF - c.fbits) < 2 ^ c.fbits := by
-      apply Nat.div_lt_of_lt_mul
-      rw [← Nat.pow_add, show srcF - c.fbits + c.fbits = srcF by omega]; exact hraw
-    exact enc_lt (by omega) s _ hbe hft
-  rw [store_id c W _ hw hlt (by omega) hst]
-  simp
-
 theorem srs_eq (c : Model.Cfg) (hes : 1 ≤ c.es) : Model.subnormalReciprocalShift c.es = -c.MIN_EXP_NORMAL := by
   unfold Model.Cfg.MIN_EXP_NORMAL Model.Cfg.EXP_BIAS
   obtain ⟨k, hk⟩ : ∃ k, c.es = k + 1 := ⟨c.es - 1, by omega⟩
@@ -191,34 +137,131 @@ theorem srs_eq (c : Model.Cfg) (hes : 1 ≤ c.es) : Model.subnormalReciprocalShi
   | zero => simp [Model.subnormalReciprocalShift]
   | succ k => simp [Model.subnormalReciprocalShift]; omega
 
-/-- subnormal-target branch (normal source) of `operator=(float/double)`: the assembled encoding -/
-theorem assignCore_subnormal (c : Model.Cfg) (srcF srcBias W : Nat) (sub : Bool) (s : Bool) (raw_exp raw0 : Nat)
-    (hes : 1 ≤ c.es) (hn : c.es + 3 ≤ c.nbits) (hw : 1 ≤ c.w) (hW : c.nbits ≤ W) (hW64 : W ≤ 64)
+/-- `Model.assemble`: the W-bit construction followed by the limb store, when everything fits -/
+theorem assemble_eq (c : Model.Cfg) (W : Nat) (s ubit : Bool) (be rawS : Nat)
+    (hes : 1 ≤ c.es) (hn : c.es + 3 ≤ c.nbits) (hw : 1 ≤ c.w) (hW : c.nbits ≤ W)
     (hst : c.nrBlocks = 1 ∨ c.nrBlocks ≤ (W + 1) / c.w)
-    (hsr : c.fbits + 1 < srcF) (hraw : raw0 < 2 ^ srcF)
-    (hsrc : -(srcBias : Int) < (raw_exp : Int) - (srcBias : Int))
-    (hlo : c.MIN_EXP_SUBNORMAL ≤ (raw_exp : Int) - (srcBias : Int))
-    (hhi : (raw_exp : Int) - (srcBias : Int) < c.MIN_EXP_NORMAL) :
-    Model.assignCore c srcF srcBias W sub s raw_exp raw0 =
-      (if s then 2 ^ (c.nbits - 1) else 0) +
-      (0 * 2 ^ (c.fbits + 1) + 2 * ((raw0 + 2 ^ srcF) /
-          2 ^ (srcF - c.fbits + (c.MIN_EXP_NORMAL - ((raw_exp : Int) - (srcBias : Int))).toNat))) +
-      (if (raw0 + 2 ^ srcF) %
-          2 ^ (srcF - c.fbits + (c.MIN_EXP_NORMAL - ((raw_exp : Int) - (srcBias : Int))).toNat) ≠ 0 then 1 else 0) := by
+    (hbe : be < 2 ^ c.es) (hraw : rawS < 2 ^ (c.fbits + 1)) :
+    Model.assemble c W s be rawS ubit =
+      (if s then 2 ^ (c.nbits - 1) else 0) + (be * 2 ^ (c.fbits + 1) + 2 * (rawS / 2)) + (if ubit then 1 else 0) := by
+  unfold Model.assemble
+  have hasm := assemble (W := W) (es := c.es) (F := c.fbits) (n := c.nbits) s ubit be rawS
+    (by unfold Model.Cfg.fbits; omega) hW hbe hraw
+  dsimp only at hasm ⊢
+  rw [hasm]
+  have hft : rawS / 2 < 2 ^ c.fbits := by rw [Nat.pow_succ] at hraw; omega
+  exact store_id c W _ hw (enc_lt (by unfold Model.Cfg.fbits; omega) s ubit hbe hft) (by omega) hst
+
+theorem shl_eq {W x k n : Nat} (h : x * 2 ^ k < 2 ^ n) (hn : n ≤ W) : Model.shl W x k = x * 2 ^ k := by
+  unfold Model.shl
+  rw [Nat.shiftLeft_eq]
+  exact Nat.mod_eq_of_lt (Nat.lt_of_lt_of_le h (Nat.pow_le_pow_right (by omega) hn))
+
+/-- fraction processing of the normal-target branch (right shift when the target is narrower than the source, left
+    shift when it is wider): the field that is stored, and the uncertainty bit. With u = fbits - srcF, d = srcF - fbits
+    (one of them is 0): raw/2 = raw0·2^u / 2^d, ubit = (raw0·2^u mod 2^d ≠ 0). -/
+theorem normalPair_spec (c : Model.Cfg) (srcF W raw0 : Nat) (hraw : raw0 < 2 ^ srcF) (hFW : c.fbits + 1 ≤ W) :
+    (Model.normalPair c srcF W raw0).1 < 2 ^ (c.fbits + 1) ∧
+    (Model.normalPair c srcF W raw0).1 / 2 = raw0 * 2 ^ (c.fbits - srcF) / 2 ^ (srcF - c.fbits) ∧
+    (Model.normalPair c srcF W raw0).2 = ((raw0 * 2 ^ (c.fbits - srcF)) % 2 ^ (srcF - c.fbits) != 0) := by
+  unfold Model.normalPair
+  by_cases hA : c.fbits + 1 ≤ srcF
+  · have c4 : ((srcF : Int) - (c.fbits : Int) - 1 ≥ 0) := by omega
+    have hu : c.fbits - srcF = 0 := by omega
+    have hsh : ((srcF : Int) - (c.fbits : Int) - 1).toNat = srcF - c.fbits - 1 := by omega
+    simp only [c4, if_true, hu, Nat.pow_zero, Nat.mul_one, hsh]
+    refine ⟨?_, ?_, ?_⟩
+    · unfold Model.shr
+      rw [Nat.shiftRight_eq_div_pow]
+      apply Nat.div_lt_of_lt_mul
+      rw [← Nat.pow_add, show srcF - c.fbits - 1 + (c.fbits + 1) = srcF by omega]; exact hraw
+    · unfold Model.shr
+      rw [Nat.shiftRight_eq_div_pow, Nat.div_div_eq_div_mul, ← Nat.pow_succ,
+        show (srcF - c.fbits - 1).succ = srcF - c.fbits by omega]
+    · have hmask : Model.shr (2 ^ srcF - 1) c.fbits &&& raw0 = raw0 % 2 ^ (srcF - c.fbits) := by
+        unfold Model.shr
+        rw [mask_shr (by omega), Nat.and_comm, Nat.and_two_pow_sub_one_eq_mod]
+      rw [hmask]
+  · have c4 : ¬ ((srcF : Int) - (c.fbits : Int) - 1 ≥ 0) := by omega
+    have hd : srcF - c.fbits = 0 := by omega
+    have hsh : (-((srcF : Int) - (c.fbits : Int) - 1)).toNat = c.fbits + 1 - srcF := by omega
+    simp only [c4, if_false, hd, Nat.pow_zero, Nat.mod_one, Nat.div_one, hsh]
+    have hlt : raw0 * 2 ^ (c.fbits + 1 - srcF) < 2 ^ (c.fbits + 1) := by
+      calc raw0 * 2 ^ (c.fbits + 1 - srcF) < 2 ^ srcF * 2 ^ (c.fbits + 1 - srcF) :=
+            Nat.mul_lt_mul_of_pos_right hraw (Nat.two_pow_pos _)
+        _ = 2 ^ (c.fbits + 1) := by rw [← Nat.pow_add]; congr 1; omega
+    rw [shl_eq hlt hFW]
+    refine ⟨hlt, ?_, by simp⟩
+    rw [show c.fbits + 1 - srcF = (c.fbits - srcF) + 1 by omega, Nat.pow_succ, ← Nat.mul_assoc,
+      Nat.mul_div_cancel _ (by norm_num)]
+
+/-- the all-ones corner of the top binade saturates -/
+theorem assignCore_top (c : Model.Cfg) (srcF W : Nat) (s : Bool) (exponent : Int) (raw0 : Nat)
+    (hes : 1 ≤ c.es) (hraw : raw0 < 2 ^ srcF) (hFW : c.fbits + 1 ≤ W)
+    (he : exponent = c.MAX_EXP - 1)
+    (hf : raw0 * 2 ^ (c.fbits - srcF) / 2 ^ (srcF - c.fbits) = 2 ^ c.fbits - 1) :
+    Model.assignCore c srcF W s exponent raw0 = (if s then Model.maxneg c else Model.maxpos c) ||| 1 := by
   obtain ⟨k1, k2, k3⟩ := model_consts c hes
-  have hsrs := srs_eq c hes
-  unfold Model.assignCore
-  generalize hexp : (raw_exp : Int) - (srcBias : Int) = exponent at *
+  obtain ⟨p1, p2, p3⟩ := normalPair_spec c srcF W raw0 hraw hFW
   have hes2 : ((2 ^ c.es : Nat) : Int) ≥ 2 := by
     have : 2 ^ 1 ≤ 2 ^ c.es := Nat.pow_le_pow_right (by omega) hes
     omega
-  have c1 : ¬ exponent > c.MAX_EXP := by omega
+  unfold Model.assignCore
+  have c1 : ¬ exponent ≥ c.MAX_EXP := by omega
   have c2 : ¬ exponent < c.MIN_EXP_SUBNORMAL := by omega
-  have c3 : (decide (exponent ≥ c.MIN_EXP_SUBNORMAL) && decide (exponent < c.MIN_EXP_NORMAL)) = true := by
+  have c3 : (decide (exponent ≥ c.MIN_EXP_SUBNORMAL) && decide (exponent < c.MIN_EXP_NORMAL)) = false := by
     simp; omega
-  have c4 : ((srcF : Int) - (c.fbits : Int) - 1 > 0) := by omega
-  have c5 : exponent > -(srcBias : Int) := hsrc
-  simp only [c1, c2, if_false, c3, if_true, c4, c5]
+  have c5 : (exponent == c.MAX_EXP - 1 && (Model.normalPair c srcF W raw0).1 >>> 1 == 2 ^ c.fbits - 1) = true := by
+    rw [Nat.shiftRight_eq_div_pow, Nat.pow_one, p2, hf, he]; simp
+  simp only [c1, c2, if_false, c3, Bool.false_eq_true, c5, if_true]
+
+/-- normal-target branch of `operator=(float/double)` outside the all-ones corner: the assembled encoding -/
+theorem assignCore_normal (c : Model.Cfg) (srcF W : Nat) (s : Bool) (exponent : Int) (raw0 : Nat)
+    (hes : 1 ≤ c.es) (hn : c.es + 3 ≤ c.nbits) (hw : 1 ≤ c.w) (hW : c.nbits ≤ W)
+    (hst : c.nrBlocks = 1 ∨ c.nrBlocks ≤ (W + 1) / c.w)
+    (hraw : raw0 < 2 ^ srcF)
+    (hlo : c.MIN_EXP_NORMAL ≤ exponent) (hhi : exponent < c.MAX_EXP)
+    (htop : ¬ (exponent = c.MAX_EXP - 1 ∧ raw0 * 2 ^ (c.fbits - srcF) / 2 ^ (srcF - c.fbits) = 2 ^ c.fbits - 1)) :
+    Model.assignCore c srcF W s exponent raw0 =
+      (if s then 2 ^ (c.nbits - 1) else 0) +
+      (((exponent + c.EXP_BIAS).toNat) * 2 ^ (c.fbits + 1) +
+        2 * (raw0 * 2 ^ (c.fbits - srcF) / 2 ^ (srcF - c.fbits))) +
+      (if (raw0 * 2 ^ (c.fbits - srcF)) % 2 ^ (srcF - c.fbits) ≠ 0 then 1 else 0) := by
+  obtain ⟨k1, k2, k3⟩ := model_consts c hes
+  have hFW : c.fbits + 1 ≤ W := by unfold Model.Cfg.fbits; omega
+  obtain ⟨p1, p2, p3⟩ := normalPair_spec c srcF W raw0 hraw hFW
+  unfold Model.assignCore
+  have c1 : ¬ exponent ≥ c.MAX_EXP := by omega
+  have c2 : ¬ exponent < c.MIN_EXP_SUBNORMAL := by omega
+  have c3 : (decide (exponent ≥ c.MIN_EXP_SUBNORMAL) && decide (exponent < c.MIN_EXP_NORMAL)) = false := by
+    simp; omega
+  have c5 : (exponent == c.MAX_EXP - 1 && (Model.normalPair c srcF W raw0).1 >>> 1 == 2 ^ c.fbits - 1) = false := by
+    rw [Nat.shiftRight_eq_div_pow, Nat.pow_one, p2]
+    by_cases h1 : exponent = c.MAX_EXP - 1
+    · have h2 : ¬ (raw0 * 2 ^ (c.fbits - srcF) / 2 ^ (srcF - c.fbits) = 2 ^ c.fbits - 1) := fun h => htop ⟨h1, h⟩
+      simp [h1, h2]
+    · simp [h1]
+  simp only [c1, c2, if_false, c3, Bool.false_eq_true, c5]
+  have hbe : (exponent + c.EXP_BIAS).toNat < 2 ^ c.es := by omega
+  rw [assemble_eq c W s _ _ _ hes hn hw hW hst hbe p1, p2, p3]
+  simp
+
+/-- fraction processing of the subnormal-target branch: with k = MIN_EXP_NORMAL - exponent (1 ≤ k ≤ fbits),
+    R = raw0 + 2^srcF, U = fbits - (srcF + k), D = srcF + k - fbits (one of them is 0):
+    raw/2 = R·2^U / 2^D, ubit = (R·2^U mod 2^D ≠ 0). -/
+theorem subPair_spec (c : Model.Cfg) (srcF W : Nat) (exponent : Int) (raw0 : Nat)
+    (hes : 1 ≤ c.es) (hraw : raw0 < 2 ^ srcF) (hFW : c.fbits + 1 ≤ W) (hW64 : W ≤ 64)
+    (hlo : c.MIN_EXP_SUBNORMAL ≤ exponent) (hhi : exponent < c.MIN_EXP_NORMAL) :
+    (Model.subPair c srcF W exponent raw0).1 < 2 ^ (c.fbits + 1) ∧
+    (Model.subPair c srcF W exponent raw0).1 / 2 =
+      (raw0 + 2 ^ srcF) * 2 ^ (c.fbits - (srcF + (c.MIN_EXP_NORMAL - exponent).toNat)) /
+        2 ^ (srcF + (c.MIN_EXP_NORMAL - exponent).toNat - c.fbits) ∧
+    (Model.subPair c srcF W exponent raw0).2 =
+      (((raw0 + 2 ^ srcF) * 2 ^ (c.fbits - (srcF + (c.MIN_EXP_NORMAL - exponent).toNat))) %
+        2 ^ (srcF + (c.MIN_EXP_NORMAL - exponent).toNat - c.fbits) != 0) := by
+  obtain ⟨k1, k2, k3⟩ := model_consts c hes
+  have hsrs := srs_eq c hes
+  unfold Model.subPair
   obtain ⟨k, hk⟩ : ∃ k : Nat, c.MIN_EXP_NORMAL - exponent = (k : Int) := ⟨(c.MIN_EXP_NORMAL - exponent).toNat, by omega⟩
   have hk1 : 1 ≤ k := by omega
   have hkF : k ≤ c.fbits := by omega
@@ -233,43 +276,70 @@ theorem assignCore_subnormal (c : Model.Cfg) (srcF srcBias W : Nat) (sub : Bool)
     have : (c.fbits : Int) + exponent + -c.MIN_EXP_NORMAL + 1 = ((c.fbits + 1 - k : Nat) : Int) := by omega
     rw [this]
     have hlt : ((c.fbits + 1 - k : Nat) : Int) < ((2 ^ 32 : Nat) : Int) := by
-      have : c.fbits < 64 := by unfold Model.Cfg.fbits; omega
+      have : c.fbits < 64 := by omega
       omega
     rw [Int.emod_eq_of_lt (by omega) hlt, Int.toNat_natCast]
-  have hadj : ((srcF : Int) - (c.fbits : Int) - 1 + -(exponent + Model.subnormalReciprocalShift c.es)).toNat
-      = srcF - c.fbits - 1 + k := by
-    rw [hsrs]; omega
-  have hmask : Model.shr (2 ^ (srcF + 1) - 1) (c.fbits + 1 - k) &&& (raw0 + 2 ^ srcF) =
-      (raw0 + 2 ^ srcF) % 2 ^ (srcF - c.fbits + k) := by
-    unfold Model.shr
-    rw [mask_shr (by omega), Nat.and_comm, Nat.and_two_pow_sub_one_eq_mod,
-      show srcF + 1 - (c.fbits + 1 - k) = srcF - c.fbits + k by omega]
   have hR : raw0 + 2 ^ srcF < 2 ^ (srcF + 1) := by rw [Nat.pow_succ]; omega
-  have hrawS : Model.shr (raw0 + 2 ^ srcF) (srcF - c.fbits - 1 + k) < 2 ^ (c.fbits + 1) := by
-    unfold Model.shr
-    rw [Nat.shiftRight_eq_div_pow]
-    apply Nat.div_lt_of_lt_mul
-    rw [← Nat.pow_add]
-    exact Nat.lt_of_lt_of_le hR (Nat.pow_le_pow_right (by omega) (by omega))
-  have hhalf : Model.shr (raw0 + 2 ^ srcF) (srcF - c.fbits - 1 + k) / 2 = (raw0 + 2 ^ srcF) / 2 ^ (srcF - c.fbits + k) := by
-    unfold Model.shr
-    rw [Nat.shiftRight_eq_div_pow, Nat.div_div_eq_div_mul, ← Nat.pow_succ,
-      show (srcF - c.fbits - 1 + k).succ = srcF - c.fbits + k by omega]
-  rw [hraw', hms, hadj, hmask]
-  have hasm := assemble (W := W) (es := c.es) (F := c.fbits) (n := c.nbits) s
-    ((raw0 + 2 ^ srcF) % 2 ^ (srcF - c.fbits + k) != 0) 0 (Model.shr (raw0 + 2 ^ srcF) (srcF - c.fbits - 1 + k))
-    (by unfold Model.Cfg.fbits; omega) hW (Nat.two_pow_pos _) hrawS
-  dsimp only at hasm ⊢
-  rw [hasm, hhalf]
-  have hlt : (if s then 2 ^ (c.nbits - 1) else 0) +
-      (0 * 2 ^ (c.fbits + 1) + 2 * ((raw0 + 2 ^ srcF) / 2 ^ (srcF - c.fbits + k))) +
-      (if ((raw0 + 2 ^ srcF) % 2 ^ (srcF - c.fbits + k) != 0) = true then 1 else 0) < 2 ^ c.nbits := by
-    have hft : (raw0 + 2 ^ srcF) / 2 ^ (srcF - c.fbits + k) < 2 ^ c.fbits := by
+  rw [hraw', hms, hsrs]
+  by_cases hA : c.fbits + 1 ≤ srcF + k
+  · have c4 : ((srcF : Int) - (c.fbits : Int) - 1 + -(exponent + -c.MIN_EXP_NORMAL) ≥ 0) := by omega
+    have hu : c.fbits - (srcF + k) = 0 := by omega
+    have hsh : ((srcF : Int) - (c.fbits : Int) - 1 + -(exponent + -c.MIN_EXP_NORMAL)).toNat = srcF + k - c.fbits - 1 := by omega
+    simp only [c4, if_true, hu, Nat.pow_zero, Nat.mul_one, hsh]
+    refine ⟨?_, ?_, ?_⟩
+    · unfold Model.shr
+      rw [Nat.shiftRight_eq_div_pow]
       apply Nat.div_lt_of_lt_mul
       rw [← Nat.pow_add]
       exact Nat.lt_of_lt_of_le hR (Nat.pow_le_pow_right (by omega) (by omega))
-    exact enc_lt (es := c.es) (F := c.fbits) (by unfold Model.Cfg.fbits; omega) s _ (Nat.two_pow_pos _) hft
-  rw [store_id c W _ hw hlt (by omega) hst]
+    · unfold Model.shr
+      rw [Nat.shiftRight_eq_div_pow, Nat.div_div_eq_div_mul, ← Nat.pow_succ,
+        show (srcF + k - c.fbits - 1).succ = srcF + k - c.fbits by omega]
+    · have hmask : Model.shr (2 ^ (srcF + 1) - 1) (c.fbits + 1 - k) &&& (raw0 + 2 ^ srcF) =
+          (raw0 + 2 ^ srcF) % 2 ^ (srcF + k - c.fbits) := by
+        unfold Model.shr
+        rw [mask_shr (by omega), Nat.and_comm, Nat.and_two_pow_sub_one_eq_mod,
+          show srcF + 1 - (c.fbits + 1 - k) = srcF + k - c.fbits by omega]
+      rw [hmask]
+  · have c4 : ¬ ((srcF : Int) - (c.fbits : Int) - 1 + -(exponent + -c.MIN_EXP_NORMAL) ≥ 0) := by omega
+    have hd : srcF + k - c.fbits = 0 := by omega
+    have hsh : (-((srcF : Int) - (c.fbits : Int) - 1 + -(exponent + -c.MIN_EXP_NORMAL))).toNat = c.fbits + 1 - (srcF + k) := by omega
+    simp only [c4, if_false, hd, Nat.pow_zero, Nat.mod_one, Nat.div_one, hsh]
+    have hlt : (raw0 + 2 ^ srcF) * 2 ^ (c.fbits + 1 - (srcF + k)) < 2 ^ (c.fbits + 1) := by
+      calc (raw0 + 2 ^ srcF) * 2 ^ (c.fbits + 1 - (srcF + k)) < 2 ^ (srcF + 1) * 2 ^ (c.fbits + 1 - (srcF + k)) :=
+            Nat.mul_lt_mul_of_pos_right hR (Nat.two_pow_pos _)
+        _ = 2 ^ (srcF + 1 + (c.fbits + 1 - (srcF + k))) := by rw [← Nat.pow_add]
+        _ ≤ 2 ^ (c.fbits + 1) := Nat.pow_le_pow_right (by omega) (by omega)
+    rw [shl_eq hlt hFW]
+    refine ⟨hlt, ?_, by simp⟩
+    rw [show c.fbits + 1 - (srcF + k) = (c.fbits - (srcF + k)) + 1 by omega, Nat.pow_succ, ← Nat.mul_assoc,
+      Nat.mul_div_cancel _ (by norm_num)]
+
+/-- subnormal-target branch of `operator=(float/double)`: the assembled encoding -/
+theorem assignCore_subnormal (c : Model.Cfg) (srcF W : Nat) (s : Bool) (exponent : Int) (raw0 : Nat)
+    (hes : 1 ≤ c.es) (hn : c.es + 3 ≤ c.nbits) (hw : 1 ≤ c.w) (hW : c.nbits ≤ W) (hW64 : W ≤ 64)
+    (hst : c.nrBlocks = 1 ∨ c.nrBlocks ≤ (W + 1) / c.w)
+    (hraw : raw0 < 2 ^ srcF)
+    (hlo : c.MIN_EXP_SUBNORMAL ≤ exponent) (hhi : exponent < c.MIN_EXP_NORMAL) :
+    Model.assignCore c srcF W s exponent raw0 =
+      (if s then 2 ^ (c.nbits - 1) else 0) +
+      (0 * 2 ^ (c.fbits + 1) + 2 * ((raw0 + 2 ^ srcF) * 2 ^ (c.fbits - (srcF + (c.MIN_EXP_NORMAL - exponent).toNat)) /
+          2 ^ (srcF + (c.MIN_EXP_NORMAL - exponent).toNat - c.fbits))) +
+      (if ((raw0 + 2 ^ srcF) * 2 ^ (c.fbits - (srcF + (c.MIN_EXP_NORMAL - exponent).toNat))) %
+          2 ^ (srcF + (c.MIN_EXP_NORMAL - exponent).toNat - c.fbits) ≠ 0 then 1 else 0) := by
+  obtain ⟨k1, k2, k3⟩ := model_consts c hes
+  have hFW : c.fbits + 1 ≤ W := by unfold Model.Cfg.fbits; omega
+  obtain ⟨p1, p2, p3⟩ := subPair_spec c srcF W exponent raw0 hes hraw hFW hW64 hlo hhi
+  have hes2 : ((2 ^ c.es : Nat) : Int) ≥ 2 := by
+    have : 2 ^ 1 ≤ 2 ^ c.es := Nat.pow_le_pow_right (by omega) hes
+    omega
+  unfold Model.assignCore
+  have c1 : ¬ exponent ≥ c.MAX_EXP := by omega
+  have c2 : ¬ exponent < c.MIN_EXP_SUBNORMAL := by omega
+  have c3 : (decide (exponent ≥ c.MIN_EXP_SUBNORMAL) && decide (exponent < c.MIN_EXP_NORMAL)) = true := by
+    simp; omega
+  simp only [c1, c2, if_false, c3, if_true]
+  rw [assemble_eq c W s _ _ _ hes hn hw hW hst (Nat.two_pow_pos _) p1, p2, p3]
   simp
 
 end UVerif.ArealLemmas
